@@ -1,6 +1,6 @@
 use std::path::Path;
 
-use crate::parser::ast::{AstId, IdGenerator};
+use crate::parser::ast::{AstId, Expression_, IdGenerator};
 use crate::parser::parse_toplevel_items;
 use crate::parser::vfs::Vfs;
 use crate::pos_to_id::{find_expr_of_id, find_item_at};
@@ -32,6 +32,15 @@ pub(crate) fn wrap_in_dbg(
     let Some(expr) = find_expr_of_id(&items, *expr_id) else {
         return Err("No expression found for the ID at this position.".to_owned());
     };
+
+    // These expressions jump elsewhere rather than producing a value,
+    // so there is nothing for `dbg()` to show.
+    if matches!(
+        expr.expr_,
+        Expression_::Break | Expression_::Continue | Expression_::Return(_)
+    ) {
+        return Err("This expression does not produce a value.".to_owned());
+    }
 
     let mut result = String::new();
     result.push_str(&src[..expr.position.start_offset]);
